@@ -11,6 +11,7 @@
 //!   hash <name> <iters> <salt>                   => <hash hex>
 //!   dedup <name>/<rtype>/<u|k>/<rdata> ..        => <name>/<rtype> ..   (SortedRecords' dedup)
 //!   label <hash> <apex>                          => Ok <owner name> <decoded first label>
+//!   sro (V|E|I <name>/<rtype>/<u|k>/<rdata> ..) ..  => <name>/<rtype>/<rdata> ..   (From<Vec> / extend / insert, in sequence, on one SortedRecords)
 //!   parse <octets>                               => Ok | Err 10 | Err 11   (RtypeBitmap::from_octets)
 //!   srt <class>/<name>/<rtype>/<u|k>/<rdata> ..  => <class>/<name>/<rtype>/<rdata> ..   (SortedRecords::from_iter on unsorted input)
 //! The record list of a case is the content of the SortedRecords vector, in its
@@ -795,6 +796,56 @@ fn run_sort(out: &mut Out, recs: &[(u16, Labels, u16, bool, Vec<u8>)]) {
     }
 }
 
+/// A sequence of SortedRecords entry points on one collection: V = From<Vec> (a
+/// fresh collection), E = extend, I = insert of each record.  Whatever the
+/// sequence, the vector must stay in canonical order without duplicates and
+/// hold every (owner, type) put in since it was created.
+fn run_ops(out: &mut Out, ops: &[(char, Vec<(Labels, u16, bool, Vec<u8>)>)]) {
+    type R4 = (Labels, u16, bool, Vec<u8>);
+    let mk = |x: &R4| -> Record<N, D> {
+        let data: D = if x.2 { ZoneRecordData::Ns(Ns::new(mk_name(&vec![x.3.clone()]))) }
+            else { ZoneRecordData::Unknown(UnknownRecordData::from_octets(Rtype::from_int(x.1), Bytes::from(x.3.clone())).unwrap()) };
+        Record::new(mk_name(&x.0), Class::IN, Ttl::from_secs(3600), data)
+    };
+    let rd = |x: &R4| if x.2 { wire(&vec![x.3.clone()]) } else { x.3.clone() };
+    let mut words = vec![];
+    for (tag, recs) in ops {
+        words.push(tag.to_string());
+        for x in recs { words.push(format!("{}/{}/{}/{}", hex(&wire(&x.0)), x.1, if x.2 { "k" } else { "u" }, hex(&rd(x)))); }
+    }
+    let case = format!("sro {}", words.join(" "));
+    out.begin(&case);
+    let res = catch_mut(|| {
+        let mut s = SortedRecords::<N, D>::new();
+        for (tag, recs) in ops {
+            match tag {
+                'V' => { s = SortedRecords::<N, D>::from(recs.iter().map(mk).collect::<Vec<_>>()); }
+                'E' => { s.extend(recs.iter().map(mk)); }
+                _ => { for x in recs { let _ = s.insert(mk(x)); } }
+            }
+        }
+        s.iter().map(|r| {
+            let d = match r.data() { ZoneRecordData::Ns(ns) => ns.nsdname().as_slice().to_vec(), ZoneRecordData::Unknown(u) => u.data().to_vec(), _ => vec![] };
+            (labels_of_wire(r.owner().as_slice()), r.rtype().to_int(), d)
+        }).collect::<Vec<_>>()
+    });
+    match res {
+        Err(e) => { out.case(&case, "Panic", true, "sro"); out.check(false, "panic_sorted_records", &case, &e); }
+        Ok(got) => {
+            let obs: Vec<String> = got.iter().map(|(n, t, d)| format!("{}/{}/{}", hex(&wire(n)), t, hex(d))).collect();
+            out.case(&case, &if obs.is_empty() { "-".to_string() } else { obs.join(" ") }, ops.len() > 1, "sro");
+            out.check(got.windows(2).all(|w| match canon_cmp(&w[0].0, &w[1].0) { Ordering::Less => true, Ordering::Equal => w[0].1 <= w[1].1, Ordering::Greater => false }),
+                "sorted_records_order", &case, "not in canonical owner / type order after the sequence");
+            out.check(got.windows(2).all(|w| !(lower(&w[0].0) == lower(&w[1].0) && w[0].1 == w[1].1 && w[0].2 == w[1].2)),
+                "sorted_records_duplicate", &case, "two equal records next to each other");
+            let mut want: BTreeSet<(Vec<u8>, u16)> = BTreeSet::new();
+            for (tag, recs) in ops { if *tag == 'V' { want.clear(); } for x in recs { want.insert((wire(&lower(&x.0)), x.1)); } }
+            let have: BTreeSet<(Vec<u8>, u16)> = got.iter().map(|(n, t, _)| (wire(&lower(n)), *t)).collect();
+            out.check(want == have, "sorted_records_drops_type", &case, "");
+        }
+    }
+}
+
 fn main() {
     let a = args();
     let mut out = Out::new(&a, "C13", 60);
@@ -910,6 +961,36 @@ fn main() {
         idx += 1;
         if !out.wants(idx) { continue; }
         run_sort(&mut out, &recs);
+    }
+    // sequences of SortedRecords entry points
+    let n_ops = if a.thorough { 3000 } else { 250 } * a.scale;
+    let fixed_ops: Vec<Vec<(char, Vec<(Labels, u16, bool, Vec<u8>)>)>> = vec![
+        // a zone collected in two steps; the second batch is in order in itself and sorts before the tail
+        vec![('E', vec![(l(&["example"]), 6, false, vec![1]), (l(&["ns1", "example"]), 1, false, vec![1]), (l(&["www", "example"]), 1, false, vec![1])]),
+             ('E', vec![(l(&["alpha", "example"]), 1, false, vec![1]), (l(&["mail", "example"]), 1, false, vec![1])])],
+        // a record for an owner already present, added later
+        vec![('E', vec![(l(&["example"]), 6, false, vec![1]), (l(&["www", "example"]), 1, false, vec![1])]), ('E', vec![(l(&["example"]), 15, false, vec![1])])],
+        vec![('V', vec![(l(&["b"]), 1, false, vec![1]), (l(&["a"]), 1, false, vec![1])]), ('I', vec![(l(&["A"]), 1, false, vec![1]), (l(&["0"]), 1, false, vec![2])]), ('E', vec![])],
+        vec![],
+    ];
+    for i in 0..n_ops + fixed_ops.len() as u64 {
+        let ops = if (i as usize) < fixed_ops.len() { fixed_ops[i as usize].clone() } else {
+            (0..r.range(1, 5)).map(|_| {
+                let tag = *r.pick(&['E', 'E', 'E', 'I', 'V']);
+                let k = r.below(4);
+                let mut recs: Vec<(Labels, u16, bool, Vec<u8>)> = (0..k).map(|_| {
+                    let owner = match r.below(7) { 0 => l(&["a"]), 1 => l(&["A"]), 2 => l(&["b", "a"]), 3 => l(&["m"]), 4 => l(&["z"]), 5 => l(&["*", "a"]), _ => vec![] };
+                    let t = *r.pick(&[1u16, 2, 2, 16, 65280]);
+                    if t == 2 { (owner, t, true, r.pick(&[&b"n"[..], b"m"]).to_vec()) } else { (owner, t, false, r.pick(&[&[1u8][..], &[2], &[]]).to_vec()) }
+                }).collect();
+                // half of the batches arrive in canonical order themselves
+                if r.chance(1, 2) { recs.sort_by(|x, y| canon_cmp(&x.0, &y.0).then(x.1.cmp(&y.1)).then(x.3.cmp(&y.3))); }
+                (tag, recs)
+            }).collect()
+        };
+        idx += 1;
+        if !out.wants(idx) { continue; }
+        run_ops(&mut out, &ops);
     }
     out.finish(&[]);
 }
